@@ -61,6 +61,23 @@ pub struct Opts {
     pub check_size_limit: bool,
     pub message_cache: bool,
     pub encryption: bool,
+    /// route a share of the administrator's catalogue commands over HTTP
+    pub http_arm: bool,
+}
+
+/// `routed!(h, c, method(args))`: the call on connection `c`'s client, or - for the administrator in runs with
+/// the HTTP arm, by a seeded coin - the same call on the SDK's `HttpClient` against the in-process HTTP API.
+#[macro_export]
+macro_rules! routed {
+    ($h:expr, $c:expr, $method:ident ( $($arg:expr),* $(,)? )) => {{
+        if $h.route_http($c) {
+            let result = $h.http0.as_ref().unwrap().$method($($arg),*).await;
+            $h.stats.probe("request_via_http");
+            result
+        } else {
+            $h.clients[$c].as_ref().unwrap().$method($($arg),*).await
+        }
+    }};
 }
 
 pub struct Harness {
@@ -77,6 +94,8 @@ pub struct Harness {
     pub fatal: bool,
     pub fresh_id: u64,
     pub snapshot_horizon: Option<u64>,
+    pub http0: Option<iggy::http::client::HttpClient>,
+    pub http_rng: crate::rng::Rng,
     pub log: Vec<String>,
     pub verbose: bool,
     pub key_affinity: BTreeMap<(u32, u32, Vec<u8>, u32), u32>,
@@ -184,6 +203,8 @@ impl Harness {
             fatal: false,
             fresh_id: 0,
             snapshot_horizon: None,
+            http0: None,
+            http_rng: crate::rng::Rng::substream(0x4854_5450, "http-route"),
             log: Vec::new(),
             verbose: std::env::var("VERIF_VERBOSE").is_ok(),
             key_affinity: BTreeMap::new(),
@@ -205,7 +226,8 @@ impl Harness {
     /// continue at the next offset, every message that was not deleted is still served exactly as before").
     /// Under that property's scenario family they are switched on and reported under its id.
     fn borrowed(&self, prop: &str) -> Option<&'static str> {
-        const TABLE: [(&str, &[&str]); 9] = [
+        const TABLE: [(&str, &[&str]); 10] = [
+            ("C06", &["C08"]),
             ("C13", &WIRE_ORACLE_PROPS),
             ("C14", &["C01", "C02", "C03"]),
             ("C15", &["C01"]),
@@ -335,7 +357,26 @@ impl Harness {
             self.model.sessions[c].user = 1;
         }
         self.clients[c] = Some(client);
+        if c == 0 && as_root && self.opts.http_arm {
+            // the administrator's HTTP twin: the SDK's HttpClient, logged in as root (JWT)
+            self.http0 = None;
+            if let Ok(http) = iggy::http::client::HttpClient::create(Arc::new(iggy::http::config::HttpClientConfig { api_url: "http://sim".into(), retries: 0 })) {
+                let (name, password) = self.model.users.get(&1).map(|u| (u.name.clone(), u.password.clone())).unwrap_or((crate::world::ROOT_USER.into(), crate::world::ROOT_PASSWORD.into()));
+                match http.login_user(&name, &password).await {
+                    Ok(_) => {
+                        self.http0 = Some(http);
+                        self.stats.probe("http_root_login");
+                    }
+                    Err(e) => self.violate("C10", "only_valid_credentials", "root_http_login_failed", format!("root cannot log in over HTTP with its current password: {e:?}")),
+                }
+            }
+        }
         Ok(())
+    }
+
+    /// Does this call of connection `c` go over HTTP? (the administrator only, by a coin of its own stream)
+    pub fn route_http(&mut self, c: usize) -> bool {
+        c == 0 && self.http0.is_some() && self.http_rng.chance(0.5)
     }
 
     fn client(&self, c: usize) -> Option<&TcpClient> {
@@ -1265,6 +1306,7 @@ impl Harness {
         // and for every other check it marks the affected partitions so nothing is mis-attributed
         self.snapshot_horizon = None;
         let before = if quiesce { Some(crate::snapshot::take(self).await) } else { None };
+        self.http0 = None;
         // drop client connections first: the server sees them close
         for c in 0..self.clients.len() {
             self.clients[c] = None;
